@@ -29,7 +29,7 @@ FAULTS_A = ["none", "missing_dimension", "missing_excitation", "custom_raises", 
             "custom_list", "custom_unsupported_field", "custom_no_func", "pixel_agg_badname", "pixel_agg_ndim",
             "pixel_agg_size", "pixel_agg_isscalar", "pixel_shapes_differ", "bad_output", "bad_in_out",
             "kwargs_in_oo", "empty_sources", "empty_observers", "bad_observer_obj", "bad_source_obj",
-            "dataframe_ok", "functional_readonly", "sumup_squeeze", "core_readonly"]
+            "dataframe_ok", "functional_readonly", "sumup_squeeze", "core_readonly", "single_point"]
 
 
 def plan(tier):
@@ -129,6 +129,19 @@ def gen_scenario(rng, fault):
             s["position"], s["orientation"] = P, Q
             for c in s.get("children", []):
                 c["position"], c["orientation"] = objs.rand_path(rng, L)
+    for x in [y for s0 in srcs for y in objs.leaves(s0)]:
+        if x["cls"] == "TriangularMesh" and rng.random() < 0.5:
+            # a mesh nobody has checked yet: the status attributes are None and must stay None
+            for k in ("check_open", "check_disconnected", "check_selfintersecting", "reorient_faces"):
+                x[k] = "skip"
+    if fault == "single_point":
+        # the smallest possible call: one source, path length 1, one observer point
+        cls = str(rng.choice(["Tetrahedron", "Tetrahedron", "TriangularMesh", "Triangle", "Cuboid", "Polyline", "CylinderSegment"]))
+        one = objs.rand_source(rng, cls, path_len=1)
+        if cls == "TriangularMesh" and rng.random() < 0.5:
+            for k in ("check_open", "check_disconnected", "check_selfintersecting", "reorient_faces"):
+                one[k] = "skip"
+        srcs, sens, tiling, L = [one], [], "none", 1
     return {"sources": srcs, "sensors": sens, "tiling": tiling, "fault": fault, "L": L,
             "field": str(rng.choice(list("BHJM"))), "fire_at": int(rng.integers(1, 5)),
             "style_init": bool(rng.random() < 0.5), "salt": int(rng.integers(2**31))}
@@ -206,6 +219,12 @@ class Setup:
             self.kw = {"output": "dataframe"}
         elif fault == "sumup_squeeze":
             self.kw = {"sumup": True, "squeeze": True, "pixel_agg": "mean"}
+        elif fault == "single_point":
+            r = np.random.default_rng(sc.get("salt", 0))
+            self.observers = r.normal(size=3) * 3 if r.random() < 0.5 else r.normal(size=(1, 3)) * 3
+            self.kw = dict(squeeze=bool(r.random() < 0.5))
+            if r.random() < 0.3:
+                self.sources = self.sources[0]    # the bare object instead of a list
         if fault in ("none", "sumup_squeeze") and np.random.default_rng(sc["fire_at"]).random() < 0.5:
             arr = np.random.default_rng(sc["fire_at"]).normal(size=(3, 3)) * 4
             arr.flags.writeable = False
@@ -345,7 +364,7 @@ def run_one(ctx, sc, inject=None):
     fired = inject is None or hits["n"] >= (inject[2] if inject else 0)
     if inject is not None and not isinstance(raised, probes.InjectedFault):
         fired = False
-    nontrivial = ntile > 0 and (raised is not None or sc["fault"] in ("none", "dataframe_ok", "sumup_squeeze"))
+    nontrivial = (ntile > 0 and (raised is not None or sc["fault"] in ("none", "dataframe_ok", "sumup_squeeze"))) or sc["fault"] == "single_point"
     ctx.evaluated(case, nontrivial=bool(nontrivial))
     if ntile:
         ctx.count("tiled_objects", ntile)
